@@ -269,7 +269,11 @@ Str gen_string(Rng& rng, size_t maxlen) {
     if (s.size() > maxlen) s.resize(maxlen);
     return s;
 }
+// names that mean something to some file-URI convention (RFC 8089 localhost, Windows device / extended-length prefixes, legacy drive
+// notations, dot segments, text that looks like a URI): an implementation that special-cases one of them breaks the round trip
+static const char* const FSPECIAL[] = {"localhost", "LOCALHOST", "?", ".", "..", "C:", "c:", "C|", "c$", "UNC", "127.0.0.1", "file:", "a:b", "%41", "%2F", "%5C", "~", "CON", "...", "x.", " ", "+", "[::1]", "a b"};
 static Str gen_fname_segment(Rng& rng, const char* forbidden) {
+    if (rng.chance(1, 8)) { Str t = FSPECIAL[rng.below(sizeof FSPECIAL / sizeof FSPECIAL[0])]; bool ok = true; for (char ch : t) if (strchr(forbidden, ch)) ok = false; if (ok) return t; }
     static const char hot[] = "abcXYZ019 .-_~%:@#?&=+;,![]{}^'()$";
     int n = rng.range(0, 8); Str s;
     for (int i = 0; i < n; i++) {
